@@ -1216,9 +1216,21 @@ fn trace_path() -> Option<&'static str> {
 /// runs (registry checks included) becomes a "monitor" disagreement carrying the history.
 fn run_guarded(cfg: Cfg, drv: &mut Driver, hist: &Hist) -> Result<CaseOut, String> {
     if let Some(path) = trace_path() {
+        use std::io::{Seek, Write};
+        static FILE: std::sync::Mutex<Option<std::fs::File>> = std::sync::Mutex::new(None);
         let mut line = hist_lines(cfg, hist).join(" ; ");
         line.push('\n');
-        let _ = std::fs::write(path, line);
+        if let Ok(mut g) = FILE.lock() {
+            if g.is_none() {
+                *g = std::fs::File::create(path).ok();
+            }
+            if let Some(f) = g.as_mut() {
+                // the file always holds exactly one line: the history about to run
+                let _ = f.rewind();
+                let _ = f.write_all(line.as_bytes());
+                let _ = f.set_len(line.len() as u64);
+            }
+        }
     }
     match catch_unwind(AssertUnwindSafe(|| run_cfg(cfg, drv, hist))) {
         Ok(r) => r,
